@@ -120,7 +120,7 @@ import (
 // On exit, iwork contains the permutation required to sort alpha descending.
 //
 // iwork must have length n, work must have length at least max(1, lwork), and
-// lwork must be -1 or greater than n, otherwise Dggsvd3 will panic. If
+// lwork must be -1 or at least n+max(3*n+1,m,p), otherwise Dggsvd3 will panic. If
 // lwork is -1, work[0] holds the optimal lwork on return, but Dggsvd3 does
 // not perform the GSVD.
 func (impl Implementation) Dggsvd3(jobU, jobV, jobQ lapack.GSVDJob, m, n, p int, a []float64, lda int, b []float64, ldb int, alpha, beta, u []float64, ldu int, v []float64, ldv int, q []float64, ldq int, work []float64, lwork int, iwork []int) (k, l int, ok bool) {
@@ -152,7 +152,7 @@ func (impl Implementation) Dggsvd3(jobU, jobV, jobQ lapack.GSVDJob, m, n, p int,
 		panic(badLdQ)
 	case len(iwork) < n:
 		panic(shortWork)
-	case lwork < 1 && lwork != -1:
+	case lwork < n+max(3*n+1, m, p) && lwork != -1:
 		panic(badLWork)
 	case len(work) < max(1, lwork):
 		panic(shortWork)
